@@ -97,6 +97,15 @@ def gen_case(rng):
     if rep is None:
         return {'kind': 'remove_gate', 'circuit': dump, 'label': rng.choice(labels)}
     sub, imap, omap = rep
+    if rng.random() < 0.15:
+        # an internal gate of the replacement carries the label of a host gate outside the replaced region:
+        # the call has to refuse (documented error) - it must never overwrite the host gate
+        region = set(semoracle.cone(dump, ins, outs)) | set(ins)
+        mapped = {b for _, b in imap} | {b for _, b in omap}
+        cand = [l for l, t, _ in sub['gates'] if t != 'INPUT' and l not in mapped]
+        host = [l for l in labels if l not in region and l not in {g[0] for g in sub['gates']}]
+        if cand and host:
+            sub = gen.rename_dump(sub, {rng.choice(cand): rng.choice(host)})
     return {'kind': kind, 'circuit': dump, 'sub': sub, 'imap': imap, 'omap': omap, 'equivalent': True}
 
 
